@@ -114,6 +114,8 @@ class Ctx {
   std::uint64_t unknown_ops = 0;
   std::uint64_t injection_points = 0;
   bool trace_resume = false;
+  bool auto_sync = true;  // name unknown mutexes m0, m1, … and wait queues q0, q1, … by first appearance
+  int auto_m = 0, auto_q = 0, auto_cb = 0;
 
   // ---- totals
   std::uint64_t executions = 0;
@@ -130,6 +132,7 @@ class Ctx {
     tids.clear();
     dirty.clear();
     unknown_ops = 0;
+    auto_m = auto_q = auto_cb = 0;
     ++executions;
   }
 
@@ -226,7 +229,10 @@ class Ctx {
     if (numeric[obj]) return std::to_string(w);
     auto it = vals.find(w);
     if (it != vals.end()) return it->second;
-    return "?" ;
+    // an unknown pointer value: a callback object allocated inside the library; name by first appearance
+    std::string name = "cb" + std::to_string(auto_cb++);
+    vals[w] = name;
+    return name;
   }
 
   void Event(const std::string& payload) {
@@ -293,6 +299,12 @@ class Ctx {
   void OnSync(const void* obj, int op, int res) {
     dirty[CurId()] = true;
     auto it = objs.find(obj);
+    if (it == objs.end() && auto_sync) {
+      using namespace yaclib::verif;
+      bool is_mutex = op == kLock || op == kTryLock || op == kUnlock;
+      std::string name = (is_mutex ? "m" : "q") + std::to_string(is_mutex ? auto_m++ : auto_q++);
+      it = objs.emplace(obj, name).first;
+    }
     if (it == objs.end()) {
       ++unknown_ops;
       return;
@@ -391,5 +403,165 @@ inline void InstallAssertCallbacks() {
   YACLIB_INIT_DEBUG(cb);
 #endif
 }
+
+}  // namespace vx
+
+// ------------------------------------------------------------------------------------------------
+// exploration driver shared by the harnesses
+namespace vx {
+
+struct Options {
+  std::string mode = "dfs";  // dfs | random
+  int preempt_bound = 2;
+  int weak_bound = 1;
+  std::uint64_t max_exec = 200000;   // per scenario
+  std::uint64_t random_runs = 2000;  // per scenario in random mode
+  std::uint64_t seed = 1;
+  std::string out;                   // trace file (distinct traces only)
+  std::string replay_choices;        // run exactly this choice sequence
+  bool has_replay = false;
+  std::string only;                  // run only the scenario with this header
+  bool verbose = false;
+};
+
+inline Options ParseOptions(int argc, char** argv) {
+  Options o;
+  for (int i = 1; i < argc; ++i) {
+    std::string a = argv[i];
+    auto next = [&]() -> std::string { return i + 1 < argc ? argv[++i] : ""; };
+    if (a == "--mode") o.mode = next();
+    else if (a == "--pb") o.preempt_bound = std::atoi(next().c_str());
+    else if (a == "--wb") o.weak_bound = std::atoi(next().c_str());
+    else if (a == "--max-exec") o.max_exec = std::strtoull(next().c_str(), nullptr, 10);
+    else if (a == "--random-runs") o.random_runs = std::strtoull(next().c_str(), nullptr, 10);
+    else if (a == "--seed") o.seed = std::strtoull(next().c_str(), nullptr, 10);
+    else if (a == "--out") o.out = next();
+    else if (a == "--choices") { o.replay_choices = next(); o.has_replay = true; }
+    else if (a == "--only") o.only = next();
+    else if (a == "-v") o.verbose = true;
+  }
+  return o;
+}
+
+struct Stats {
+  std::uint64_t executions = 0, distinct = 0, violations = 0, deadlocks = 0, exhausted_scenarios = 0,
+                truncated_scenarios = 0, scenarios = 0, trace_lines = 0, nondeterministic = 0, asserts = 0,
+                max_choices = 0, sum_preempts = 0, sum_weaks = 0;
+};
+
+class Explorer {
+ public:
+  explicit Explorer(const Options& o) : opt(o) {
+    ctx.preempt_bound = o.preempt_bound;
+    ctx.weak_bound = o.weak_bound;
+    ctx.random_mode = o.mode == "random";
+    ctx.rng.s = o.seed * 0x9e3779b97f4a7c15ULL + 12345;
+    InstallHooks(&ctx);
+    InstallAssertCallbacks();
+    if (!o.out.empty()) out = std::fopen(o.out.c_str(), "w");
+  }
+  ~Explorer() {
+    if (out) std::fclose(out);
+  }
+
+  // scenario(): runs inside the root fiber.  monitor(done) -> "" if fine, else a description of the violation.
+  template <typename Scenario, typename Monitor>
+  void Run(const std::string& header, Scenario&& scenario, Monitor&& monitor) {
+    if (!opt.only.empty() && opt.only != header) return;
+    ++stats.scenarios;
+    ctx.stack.clear();
+    if (opt.has_replay) {
+      ctx.random_mode = false;
+      ctx.preempt_bound = 1 << 30;
+      ctx.weak_bound = 1 << 30;
+      ctx.LoadChoices(opt.replay_choices);
+    }
+    std::uint64_t n = 0;
+    std::uint64_t limit = ctx.random_mode ? opt.random_runs : opt.max_exec;
+    bool exhausted = false;
+    while (true) {
+      bool done = RunOnce(ctx, scenario);
+      ++n;
+      ++stats.executions;
+      stats.sum_preempts += ctx.preempts;
+      stats.sum_weaks += ctx.weaks;
+      if (ctx.pos > stats.max_choices) stats.max_choices = ctx.pos;
+      if (ctx.nondeterminism) {
+        ++stats.nondeterministic;
+        ctx.nondeterminism = false;
+      }
+      std::string bad = monitor(done);
+      if (bad.empty() && !done) bad = "deadlock: the scenario did not finish (every fiber blocked)";
+      if (!done) ++stats.deadlocks;
+      if (bad.empty() && !ctx.asserts.empty()) {
+        bad = "library assertion fired: " + ctx.asserts[0];
+        ++stats.asserts;
+      }
+      auto h = HashLines(ctx.trace) ^ std::hash<std::string>{}(header);
+      bool fresh = seen.insert(h).second;
+      if (fresh) {
+        ++stats.distinct;
+        stats.trace_lines += ctx.trace.size();
+        if (out) {
+          std::fprintf(out, "run %s\n", header.c_str());
+          for (auto& l : ctx.trace) std::fprintf(out, "%s\n", l.c_str());
+          std::fprintf(out, "end\n");
+        }
+        if (samples.size() < 3 && ctx.trace.size() > 3) {
+          std::string s = "run " + header;
+          for (auto& l : ctx.trace) s += " | " + l;
+          samples.push_back(s);
+        }
+      }
+      if (!bad.empty()) {
+        ++stats.violations;
+        if (violations.size() < 20) {
+          std::string v = "violation: " + bad + "\nscenario: " + header + "\nchoices: " + ctx.ChoiceString() + "\ntrace:";
+          for (auto& l : ctx.trace) v += "\n  " + l;
+          violations.push_back(v);
+        }
+      }
+      if (opt.has_replay) {
+        std::printf("run %s\n", header.c_str());
+        for (auto& l : ctx.trace) std::printf("%s\n", l.c_str());
+        std::printf("end\n");
+        break;
+      }
+      if (!ctx.Advance()) {
+        exhausted = true;
+        break;
+      }
+      if (n >= limit) break;
+    }
+    if (exhausted && !ctx.random_mode) ++stats.exhausted_scenarios;
+    else if (!ctx.random_mode) ++stats.truncated_scenarios;
+  }
+
+  void Report() {
+    std::printf("{\"executions\": %llu, \"distinct_traces\": %llu, \"violations\": %llu, \"deadlocks\": %llu, "
+                "\"scenarios\": %llu, \"exhausted_scenarios\": %llu, \"truncated_scenarios\": %llu, "
+                "\"trace_lines\": %llu, \"nondeterministic\": %llu, \"max_choices\": %llu, \"sum_preempts\": %llu, "
+                "\"sum_weak_failures\": %llu, \"injection_points\": %llu, \"mode\": \"%s\", \"preempt_bound\": %d, "
+                "\"weak_bound\": %d}\n",
+                (unsigned long long)stats.executions, (unsigned long long)stats.distinct,
+                (unsigned long long)stats.violations, (unsigned long long)stats.deadlocks,
+                (unsigned long long)stats.scenarios, (unsigned long long)stats.exhausted_scenarios,
+                (unsigned long long)stats.truncated_scenarios, (unsigned long long)stats.trace_lines,
+                (unsigned long long)stats.nondeterministic, (unsigned long long)stats.max_choices,
+                (unsigned long long)stats.sum_preempts, (unsigned long long)stats.sum_weaks,
+                (unsigned long long)ctx.injection_points, opt.mode.c_str(), opt.preempt_bound, opt.weak_bound);
+    for (auto& s : samples) std::printf("SAMPLE %s\n", s.c_str());
+    for (auto& v : violations) std::printf("=====\n%s\n", v.c_str());
+    std::fflush(stdout);
+  }
+
+  Options opt;
+  Ctx ctx;
+  Stats stats;
+  std::unordered_set<std::uint64_t> seen;
+  std::vector<std::string> samples;
+  std::vector<std::string> violations;
+  std::FILE* out = nullptr;
+};
 
 }  // namespace vx
